@@ -52,7 +52,46 @@ def shards(tier):
         for pos in ('arg', 'field', 'array'):
             out.append({'level': 'E', 'encoding': enc, 'pos': pos, 'tier': tier})
     out.append({'level': 'H', 'tier': tier})
+    # call-order histories over a three-level class hierarchy (shared with C02)
+    for first in ('mb', 'ms', 'ml'):
+        out.append({'level': 'I', 'first': first, 'tier': tier})
     return out
+
+
+def run_hier(shard, res, only=None):
+    """every order in which one application (server, and Spyne's client) meets the classes Base <- Sub <- Leaf"""
+    from vf.props import c02
+    tier = shard.get('tier', 'quick')
+    program = c02.hier_program()
+    res['cov']['programs'] += 1
+    depth = 3 if tier == 'quick' else 4
+    for rest in itertools.product(c02.HIER_METHODS, repeat=depth - 1):
+        hist = [shard['first']] + list(rest)
+        if only is not None and only['hist'] != hist:
+            continue
+        for proto in ('xml', 'soap11', 'soap12'):
+            for validator in (None, 'soft', 'lxml', 'client'):
+                if only is not None and (only['proto'] != proto or only['validator'] != validator):
+                    continue
+                if validator == 'client':
+                    h, ch = client_harness(program, proto)
+                else:
+                    h = harness.XmlHarness(program, proto, validator)
+                for step, mname in enumerate(hist):
+                    v = c02.hier_value(mname, step + 1)
+                    casedoc = {'level': 'I', 'shard': shard, 'hist': hist, 'proto': proto, 'validator': validator, 'step': step}
+                    ctx = {'site': 'I|%s|after-%s' % (mname, '+'.join(sorted(set(hist[:step]))) or 'nothing'), 'case': casedoc}
+                    if validator == 'client':
+                        oc = client_case(h, ch, mname, [v, 7], v, None, None, ctx, res)
+                    else:
+                        oc = run_case(h, mname, [v, 7], v, None, None, ctx, res, check_client=False)
+                    res['evaluations'] += 1
+                    res['outcomes'][oc] = res['outcomes'].get(oc, 0) + 1
+                    if oc == 'ok':
+                        res['nontrivial'] += 1
+                    else:
+                        break
+        res['cov']['call_order_histories'] = res['cov'].get('call_order_histories', 0) + 1
 
 
 def atom_by_id(aid):
@@ -181,6 +220,19 @@ def client_case(h, ch, mname, args, ret, ih, oh, ctx, res):
     if len(calls) != 1 or not tagged.equal(args, calls[0][1]):
         V('args', '', 'client sent %r, function received %r; request=%s' % (args, [c[1] for c in calls], (cl.last_request or b'')[:400]))
         return 'client-args'
+    # the request Spyne's client wrote must also mean the same to a schema-driven peer that is not Spyne (qualified names,
+    # schema order) - Spyne's own reader is more tolerant than that
+    if cl.last_request:
+        try:
+            peer = xsdcodec.parse_request(h.codec, m, cl.last_request, h.proto)
+            if not tagged.equal(args, peer):
+                V('request-peer', '', 'client sent %r, a schema-driven peer reads %r; request=%s' % (args, peer, cl.last_request[:400]))
+                return 'client-request'
+        except xsdcodec.DecodeError as e:
+            V('request-peer', 'undecodable', 'the request the client wrote for %r cannot be read under the published schema: %s; request=%s' % (args, e, cl.last_request[:400]))
+            return 'client-request'
+        except (xsdcodec.SchemaError, xsdcodec.NotDenotable):
+            pass
     rt = m.get('ret')
     if rt is None:
         return 'ok'
@@ -378,6 +430,9 @@ def run_shard(shard):
         run_subnames(res)
         res['cov']['programs'] += 1
         return compress(res)
+    if shard['level'] == 'I':
+        run_hier(shard, res)
+        return compress(res)
     if shard['level'] == 'E':
         program = universe.program_for(atom_by_id('Unicode'), shard['pos'])
         res['cov']['programs'] += 1
@@ -441,6 +496,9 @@ def replay(case):
         return res['violations']
     if case['level'] == 'H':
         run_subnames(res, case['only'])
+        return res['violations']
+    if case['level'] == 'I':
+        run_hier(case['shard'], res, only=case)
         return res['violations']
     if case['level'] == 'A':
         at = atom_by_id(case['atom'])
